@@ -49,6 +49,7 @@ Cell == pick.cell
 
 \* --- invariants (one per theorem so that a counterexample names it)
 Inv_C02 == Leaf => C02_LOIsPartonModel(Cell)
+Inv_C02_NuScaling == Leaf => C02_NeutrinoScaling(Cell)
 Inv_C07_FFNS == Leaf => C07_FFNSPartition(Cell)
 Inv_C07_ZM == Leaf => C07_ZMTotalIsLight(Cell)
 Inv_C07_FONLL == Leaf => C07_FONLLParts(Cell)
